@@ -32,9 +32,10 @@ import (
 )
 
 type rmwOp struct {
-	K     string // rmw | ro (read-only begin+get+discard) | other (write an unrelated key)
+	K     string // rmw | ro (read-only begin+get+discard) | other (write an unrelated key) | edge (write whose size is at the batch limit)
 	Ctr   int
 	Delta int
+	Size  int `json:",omitempty"` // edge: value size
 }
 
 type rmwCase struct {
@@ -42,17 +43,30 @@ type rmwCase struct {
 	Ctrs    int
 	Workers [][]rmwOp
 	Sched   []int
+	// SmallBatch: MaxBatchSize 4096, and "edge" operations write values of 3900..4100 bytes: some
+	// pass the transaction's own size check and are refused when the batch is handed to the write
+	// pipeline, i.e. AFTER their commit timestamp was assigned.
+	SmallBatch bool `json:",omitempty"`
 }
 
 func genRMW(t *rapid.T) rmwCase {
 	c := rmwCase{Engine: rapid.SampledFrom([]string{"skiplist", "art"}).Draw(t, "engine"), Ctrs: rapid.IntRange(1, 2).Draw(t, "ctrs")}
 	nw := rapid.IntRange(2, 4).Draw(t, "workers")
+	c.SmallBatch = rapid.Bool().Draw(t, "smallBatch")
+	kinds := []string{"rmw", "rmw", "rmw", "ro", "other"}
+	if c.SmallBatch {
+		kinds = []string{"rmw", "rmw", "rmw", "ro", "other", "edge", "edge"}
+	}
 	for w := 0; w < nw; w++ {
 		n := rapid.IntRange(1, 4).Draw(t, "nops")
 		var ops []rmwOp
 		for i := 0; i < n; i++ {
-			k := rapid.SampledFrom([]string{"rmw", "rmw", "rmw", "ro", "other"}).Draw(t, "k")
-			ops = append(ops, rmwOp{K: k, Ctr: rapid.IntRange(0, c.Ctrs-1).Draw(t, "ctr"), Delta: rapid.IntRange(1, 9).Draw(t, "delta")})
+			k := rapid.SampledFrom(kinds).Draw(t, "k")
+			op := rmwOp{K: k, Ctr: rapid.IntRange(0, c.Ctrs-1).Draw(t, "ctr"), Delta: rapid.IntRange(1, 9).Draw(t, "delta")}
+			if k == "edge" {
+				op.Size = rapid.IntRange(3900, 4100).Draw(t, "edgeSize")
+			}
+			ops = append(ops, op)
 		}
 		c.Workers = append(c.Workers, ops)
 	}
@@ -75,6 +89,9 @@ func runRMW(c rmwCase, r *pbt.Rec) error {
 		return nil
 	}
 	cfg := eng.Cfg{Engine: c.Engine, ValueThreshold: 1 << 20, Buckets: 1, MemTableSize: 8 << 20, L0Tables: 1000, DetectConflicts: true}
+	if c.SmallBatch {
+		cfg.MaxBatchSize = 4096
+	}
 	dir, cleanup := pbt.TempDir("c03rmw")
 	defer cleanup()
 	db, err := eng.Open(cfg, dir, nil)
@@ -101,6 +118,19 @@ func runRMW(c rmwCase, r *pbt.Rec) error {
 					_, _ = tx.Get(rmwKey(op.Ctr))
 					w.Yield("ro.open")
 					tx.Discard()
+				case "edge":
+					// any error is fine here (too big at Set, or refused at send); it must not disturb the others
+					tx := db.NewTransaction(true)
+					if e := tx.Set([]byte(fmt.Sprintf("edge-%d-%d", id, j)), make([]byte, op.Size)); e != nil {
+						tx.Discard()
+						r.Label("edge:refused-at-set")
+						continue
+					}
+					if e := tx.Commit(); e != nil {
+						r.Label("edge:refused-at-commit")
+					} else {
+						r.Label("edge:committed")
+					}
 				case "other":
 					e := db.Update(func(tx *NoKV.Txn) error { return tx.Set([]byte(fmt.Sprintf("other-%d-%d", id, j)), enc(int64(j))) })
 					if e != nil && !errors.Is(e, utils.ErrConflict) && werr == nil {
